@@ -297,6 +297,13 @@ theorem e_left_congr {a b : K} (h : C.e a b = true) (c : K) : C.e c a = C.e c b 
     · have := C.trans c b a h2 (C.symm a b h); simp [this] at h1
   · exact (C.trans c a b h1 h).symm
 
+theorem e_left_congr' {a b : K} (h : C.e a b = true) (c : K) : C.e a c = C.e b c := by
+  cases h1 : C.e a c
+  · cases h2 : C.e b c
+    · rfl
+    · have := C.trans a b c h h2; simp [this] at h1
+  · exact (C.trans b a c (C.symm a b h) h1).symm
+
 /-- no entry of `r` is equivalent to `k0`, `k'` is equivalent to `k0` ⇒ no entry of `r` is found for `k'` -/
 theorem findE_none_of_equiv {r : List (K × V)} {k0 k' : K} (hr : ∀ x ∈ r, C.e k0 x.1 = false)
     (hk : C.e k' k0 = true) : findE C.e k' r = none := by
@@ -567,6 +574,732 @@ theorem set_specB (C : Consistent hash eq) {t : Table K V} (hI : Inv C t) (k : K
   obtain ⟨t', h1, h2, h3, h4⟩ := h
   refine ⟨t', ?_, h2, h3, h4⟩
   simp only [set, withUpdate, put_eq_tryPut, h1]
+
+
+/-! ### removal -/
+
+theorem lookB_bremove_ne (C : Consistent hash eq) (bs : List (Nat × Bucket K V)) {h : Nat} {k' : K}
+    (hh : h ≠ C.h k') : bget (bremove bs h) (C.h k') = bget bs (C.h k') := by
+  rw [bget_bremove, if_neg hh]
+
+theorem removeAt_spec (C : Consistent hash eq) {t : Table K V} (hI : Inv C t) {h i : Nat} {b : Bucket K V}
+    {k0 : K} {p : V} (hg : bget t.buckets h = some b) (hi : b[i]? = some (k0, p)) :
+    ∃ t', removeAt t h i = .ok t' ∧ Inv C t' ∧ t'.len + 1 = t.len ∧
+      ∀ k', lookB C t' k' = if C.e k' k0 then none else lookB C t k' := by
+  obtain ⟨hB, hL⟩ := hI
+  have hbo := hB.get hg
+  have hk0 : C.h k0 = h := hbo.1 _ (List.mem_of_getElem? hi)
+  have hil : i < b.length := by
+    rcases List.getElem?_eq_some_iff.1 hi with ⟨hlt, _⟩; exact hlt
+  have hrem := lenSum_bremove hB h
+  simp only [blen, hg] at hrem
+  have hlen : t.len ≠ 0 := by omega
+  have hnd := hB.bremove h
+  unfold removeAt
+  simp only [if_neg hlen, hg, ← List.eraseIdx_eq_take_drop_succ]
+  by_cases hl : b.length > 1
+  · simp only [if_pos hl]
+    refine ⟨_, rfl, ⟨hnd.binsert (bucketOK_eraseIdx C hbo i hl), ?_⟩, ?_, ?_⟩
+    · have h1 := lenSum_binsert (bremove t.buckets h) h (b.eraseIdx i)
+      have h2 : blen (bremove t.buckets h) h = 0 := by simp [blen, bget_bremove]
+      have h3 := List.length_eraseIdx_of_lt hil
+      simp only [h2, h3] at h1
+      simp only [hL]; omega
+    · simp only [hL]; omega
+    · intro k'
+      simp only [lookB]
+      rw [lookB_binsert]
+      by_cases hh : h = C.h k'
+      · rw [if_pos hh, findE_eraseIdx C hbo.2.1 hi, ← hh, hg]
+      · rw [if_neg hh, lookB_bremove_ne C _ hh]
+        have : C.e k' k0 = false := e_false_of_hash_ne C (by rw [hk0]; exact Ne.symm hh)
+        simp [this]
+  · simp only [if_neg hl]
+    have hb1 : b = [(k0, p)] := by
+      match b, hi, hil, hl with
+      | [x], hi, hil, _ =>
+        have : i = 0 := by simp at hil; exact hil
+        subst this; simp at hi; rw [hi]
+      | [], _, hil, _ => simp at hil
+      | _ :: _ :: _, _, _, hl => simp at hl
+    refine ⟨_, rfl, ⟨hnd, ?_⟩, ?_, ?_⟩
+    · simp only [hL]; subst hb1; simp at hrem; omega
+    · simp only [hL]; subst hb1; simp at hrem; omega
+    · intro k'
+      simp only [lookB]
+      by_cases hh : h = C.h k'
+      · rw [bget_bremove, if_pos hh, ← hh, hg, hb1]
+        cases h1 : C.e k' k0 <;> simp [findE, h1]
+      · rw [lookB_bremove_ne C _ hh]
+        have : C.e k' k0 = false := e_false_of_hash_ne C (by rw [hk0]; exact Ne.symm hh)
+        simp [this]
+
+theorem len_pos_of_lookB (C : Consistent hash eq) {t : Table K V} (hI : Inv C t) {k : K} {v : V}
+    (h : lookB C t k = some v) : t.len ≠ 0 := by
+  simp only [lookB] at h
+  cases hg : bget t.buckets (C.h k) with
+  | none => simp [hg] at h
+  | some b =>
+    simp only [hg] at h
+    have hrem := lenSum_bremove hI.buckets_ok (C.h k)
+    simp only [blen, hg] at hrem
+    have : b ≠ [] := by intro hb; subst hb; simp [findE] at h
+    have : b.length ≠ 0 := by simpa using this
+    have := hI.len_eq
+    omega
+
+/-- `pop` / set `remove` -/
+theorem popMsg_spec (C : Consistent hash eq) (msg : String) {t : Table K V} (hI : Inv C t) (k : K) :
+    match lookB C t k with
+    | none => popMsg hash eq msg t k = .error (.err msg)
+    | some _ => ∃ t', popMsg hash eq msg t k = .ok t' ∧ Inv C t' ∧ t'.len + 1 = t.len ∧
+        ∀ k', lookB C t' k' = if C.e k' k then none else lookB C t k' := by
+  unfold popMsg
+  rw [locate_eq C]
+  cases hl : lookB C t k with
+  | none =>
+    simp only
+    split
+    · rfl
+    · simp only [lookB] at hl
+      cases hg : bget t.buckets (C.h k) with
+      | none => simp [locP, hg]
+      | some b =>
+        simp only [hg] at hl
+        cases hs : scanP C.e k b with
+        | none => simp [locP, hg, hs]
+        | some i =>
+          obtain ⟨_, _, _, _, hf⟩ := scanP_some hs
+          simp [hf] at hl
+  | some v =>
+    simp only [if_neg (len_pos_of_lookB C hI hl)]
+    simp only [lookB] at hl
+    cases hg : bget t.buckets (C.h k) with
+    | none => simp [hg] at hl
+    | some b =>
+      simp only [hg] at hl
+      cases hs : scanP C.e k b with
+      | none => simp [scanP_none hs] at hl
+      | some i =>
+        obtain ⟨k0, p, hi, hek, _⟩ := scanP_some hs
+        obtain ⟨t', h1, h2, h3, h4⟩ := removeAt_spec C hI hg hi
+        refine ⟨t', by simp [locP, hg, hs, h1], h2, h3, ?_⟩
+        intro k'; rw [h4, e_left_congr C hek k']
+
+/-- `discard` -/
+theorem discard_spec (C : Consistent hash eq) {t : Table K V} (hI : Inv C t) (k : K) :
+    ∃ t', discard hash eq t k = .ok t' ∧ Inv C t' ∧
+      t'.len + (if (lookB C t k).isSome then 1 else 0) = t.len ∧
+      ∀ k', lookB C t' k' = if C.e k' k then none else lookB C t k' := by
+  have key : ∀ k', lookB C t k = none → lookB C t k' = if C.e k' k then none else lookB C t k' := by
+    intro k' hn
+    cases hk : C.e k' k
+    · simp
+    · simp only [if_true]
+      simp only [lookB] at hn ⊢
+      rw [← C.congr k' k hk]  at hn
+      cases hg : bget t.buckets (C.h k') with
+      | none => rfl
+      | some b =>
+        simp only [hg] at hn ⊢
+        rw [findE_none_iff] at hn ⊢
+        intro kv hkv
+        rw [e_left_congr' C hk]; exact hn kv hkv
+  unfold discard
+  rw [locate_eq C]
+  split
+  · rename_i h0
+    have hn : lookB C t k = none := by
+      cases hl : lookB C t k with
+      | none => rfl
+      | some v => exact absurd h0 (len_pos_of_lookB C hI hl)
+    exact ⟨t, rfl, hI, by simp [hn], fun k' => key k' hn⟩
+  · cases hg : bget t.buckets (C.h k) with
+    | none =>
+      have hn : lookB C t k = none := by simp [lookB, hg]
+      exact ⟨t, by simp [locP, hg], hI, by simp [hn], fun k' => key k' hn⟩
+    | some b =>
+      cases hs : scanP C.e k b with
+      | none =>
+        have hn : lookB C t k = none := by simp [lookB, hg, scanP_none hs]
+        exact ⟨t, by simp [locP, hg, hs], hI, by simp [hn], fun k' => key k' hn⟩
+      | some i =>
+        obtain ⟨k0, p, hi, hek, hf⟩ := scanP_some hs
+        obtain ⟨t', h1, h2, h3, h4⟩ := removeAt_spec C hI hg hi
+        have hsome : lookB C t k = some p := by simp [lookB, hg, hf]
+        refine ⟨t', by simp [locP, hg, hs, h1], h2, by simp [hsome]; omega, ?_⟩
+        intro k'; rw [h4, e_left_congr C hek k']
+
+
+/-! ### set_default, get, contains, clear -/
+
+theorem tryPut_unfold (C : Consistent hash eq) (t : Table K V) (k : K) (f : Unit → Res V) (g : V → Res V) :
+    tryPut hash eq t k f g = tryPutLocated t k (locP C t k) f g := by
+  unfold tryPut; rw [locate_eq C]
+
+theorem locP_found_iff (C : Consistent hash eq) (t : Table K V) (k : K) :
+    (∃ h i, locP C t k = .found h i) ↔ (lookB C t k).isSome := by
+  simp only [locP, lookB]
+  cases hg : bget t.buckets (C.h k) with
+  | none => simp
+  | some b =>
+    cases hs : scanP C.e k b with
+    | none => simp [hs, scanP_none hs]
+    | some i =>
+      obtain ⟨_, _, _, _, hf⟩ := scanP_some hs
+      simp [hs, hf]
+
+theorem setDefault_spec (C : Consistent hash eq) {t : Table K V} (hI : Inv C t) (k : K) (v : Unit → Res V) :
+    match lookB C t k with
+    | some _ => setDefault hash eq t k v = .ok t
+    | none =>
+      match v () with
+      | .error er => setDefault hash eq t k v = .error er
+      | .ok a => ∃ t', setDefault hash eq t k v = .ok t' ∧ Inv C t' ∧ t'.len = t.len + 1 ∧
+          ∀ k', lookB C t' k' = if C.e k' k then some a else lookB C t k' := by
+  unfold setDefault
+  rw [locate_eq C]
+  have hiff := locP_found_iff C t k
+  cases hl : lookB C t k with
+  | some p =>
+    simp only [hl, Option.isSome_some, iff_true] at hiff
+    obtain ⟨h, i, hloc⟩ := hiff
+    simp [hloc]
+  | none =>
+    simp only [hl, Option.isSome_none, Bool.false_eq_true, iff_false, not_exists] at hiff
+    simp only
+    cases hv : v () with
+    | error er =>
+      cases hloc : locP C t k with
+      | found h i => exact absurd hloc (hiff h i)
+      | missing h => simp
+      | vacant h => simp
+    | ok a =>
+      have h := (tryPut_spec C hI k (fun _ => .ok a) (fun _ => .error (.panic "unreachable"))).2 a (by rw [hl]; rfl)
+      obtain ⟨t', h1, h2, h3, h4⟩ := h
+      rw [tryPut_unfold C] at h1
+      refine ⟨t', ?_, h2, by simpa [hl] using h3, h4⟩
+      cases hloc : locP C t k with
+      | found h i => exact absurd hloc (hiff h i)
+      | missing h => simpa [hloc] using h1
+      | vacant h => simpa [hloc] using h1
+
+theorem get3_eq (C : Consistent hash eq) {t : Table K V} (_hI : Inv C t) (k : K) (d : Unit → Res V) :
+    get3 hash eq t k d = match lookB C t k with
+      | some v => .ok v
+      | none => d () := by
+  unfold get3
+  rw [locate_eq C]
+  cases hg : bget t.buckets (C.h k) with
+  | none => simp [locP, lookB, hg]
+  | some b =>
+    cases hs : scanP C.e k b with
+    | none => simp [locP, lookB, hg, hs, scanP_none hs]
+    | some i =>
+      obtain ⟨k0, p, hi, _, hf⟩ := scanP_some hs
+      simp [locP, lookB, hg, hs, hf, getAt_of_scan hg hi]
+
+theorem clear_spec (C : Consistent hash eq) {t : Table K V} (hI : Inv C t) :
+    Inv C (clear t) ∧ (clear t).len = 0 ∧ ∀ k, lookB C (clear t) k = none := by
+  unfold clear
+  split
+  · rename_i h0
+    refine ⟨hI, h0, fun k => ?_⟩
+    cases hl : lookB C t k with
+    | none => rfl
+    | some v => exact absurd h0 (len_pos_of_lookB C hI hl)
+  · exact ⟨⟨trivial, rfl⟩, rfl, fun _ => rfl⟩
+
+/-! ### bulk updates as folds of the one-key step -/
+
+/-- the one-key step of an abstract finite map `f : K → Option V` (a function on the classes of `C.e`) -/
+def stepF (C : Consistent hash eq) (onEmpty : K → Res V) (onOcc : K → V → Res V) (f : K → Option V) (k : K) :
+    Res (K → Option V) :=
+  match newVal (fun _ => onEmpty k) (onOcc k) (f k) with
+  | .error e => .error e
+  | .ok v => .ok (fun k' => if C.e k' k then some v else f k')
+
+/-- the abstract bulk update: the keys are processed in order; an error item or an error of a callback
+aborts the whole update -/
+def foldF (C : Consistent hash eq) (onEmpty : K → Res V) (onOcc : K → V → Res V) :
+    (K → Option V) → List (Res K) → Res (K → Option V)
+  | f, [] => .ok f
+  | _, .error e :: _ => .error e
+  | f, .ok k :: rest =>
+    match stepF C onEmpty onOcc f k with
+    | .error e => .error e
+    | .ok f' => foldF C onEmpty onOcc f' rest
+
+theorem updateFromKeys_spec (C : Consistent hash eq) (onEmpty : K → Res V) (onOcc : K → V → Res V)
+    {t : Table K V} (hI : Inv C t) (ks : List (Res K)) :
+    match foldF C onEmpty onOcc (lookB C t) ks with
+    | .error er => updateFromKeys hash eq onEmpty onOcc t ks = .error er
+    | .ok f => ∃ t', updateFromKeys hash eq onEmpty onOcc t ks = .ok t' ∧ Inv C t' ∧ ∀ k', lookB C t' k' = f k' := by
+  induction ks generalizing t with
+  | nil => exact ⟨t, rfl, hI, fun _ => rfl⟩
+  | cons item rest ih =>
+    cases item with
+    | error er => simp [foldF, updateFromKeys]
+    | ok k =>
+      simp only [foldF, stepF, updateFromKeys]
+      have hs := tryPut_spec C hI k (fun _ => onEmpty k) (fun v => onOcc k v)
+      cases hn : newVal (fun _ => onEmpty k) (onOcc k) (lookB C t k) with
+      | error er => simp [hs.1 er hn]
+      | ok v =>
+        obtain ⟨t1, h1, h2, _, h4⟩ := hs.2 v hn
+        simp only [h1]
+        have hf : lookB C t1 = fun k' => if C.e k' k then some v else lookB C t k' := funext h4
+        rw [← hf]
+        exact ih h2
+
+/-- `with_update` is the bulk update whose callbacks ignore the previous value -/
+theorem withUpdate_eq_fold (t : Table K V) (items : List (K × V)) :
+    withUpdate hash eq t (items.map .ok) =
+      items.foldlM (fun t kv => tryPut hash eq t kv.1 (fun _ => .ok kv.2) (fun _ => .ok kv.2)) t := by
+  induction items generalizing t with
+  | nil => rfl
+  | cons kv rest ih =>
+    obtain ⟨k, v⟩ := kv
+    simp only [List.map_cons, withUpdate, put_eq_tryPut, List.foldlM_cons]
+    cases tryPut hash eq t k (fun _ => Except.ok v) (fun _ => Except.ok v) with
+    | error e => rfl
+    | ok t' => exact ih t'
+
+/-- the association function after writing `items` in order (later items win) -/
+def writeAll (C : Consistent hash eq) (f : K → Option V) : List (K × V) → (K → Option V)
+  | [] => f
+  | (k, v) :: rest => writeAll C (fun k' => if C.e k' k then some v else f k') rest
+
+theorem withUpdate_spec (C : Consistent hash eq) {t : Table K V} (hI : Inv C t) (items : List (K × V)) :
+    ∃ t', withUpdate hash eq t (items.map .ok) = .ok t' ∧ Inv C t' ∧
+      ∀ k', lookB C t' k' = writeAll C (lookB C t) items k' := by
+  induction items generalizing t with
+  | nil => exact ⟨t, rfl, hI, fun _ => rfl⟩
+  | cons kv rest ih =>
+    obtain ⟨k, v⟩ := kv
+    obtain ⟨t1, h1, h2, _, h4⟩ := (tryPut_spec C hI k (fun _ => .ok v) (fun _ => .ok v)).2 v
+      (by cases lookB C t k <;> rfl)
+    obtain ⟨t', h5, h6, h7⟩ := ih h2
+    refine ⟨t', ?_, h6, ?_⟩
+    · simp only [List.map_cons, withUpdate, put_eq_tryPut, h1]; exact h5
+    · intro k'
+      rw [h7, writeAll]
+      have hf : lookB C t1 = fun k' => if C.e k' k then some v else lookB C t k' := funext h4
+      rw [hf]
+
+
+/-! ### sets -/
+
+theorem binsert_self {β : Type} (bs : List (Nat × β)) (h : Nat) (b : β) (hg : bget bs h = some b) :
+    binsert bs h b = bs := by
+  induction bs with
+  | nil => simp [bget] at hg
+  | cons hb rest ih =>
+    obtain ⟨h0, b0⟩ := hb
+    simp only [bget] at hg
+    by_cases h1 : h0 = h
+    · subst h1; simp at hg; subst hg; simp [binsert]
+    · simp only [if_neg h1] at hg; simp [binsert, h1, ih hg]
+
+theorem set_unit_self (b : Bucket K Unit) (i : Nat) (k0 : K) (hi : b[i]? = some (k0, ())) :
+    b.set i (k0, ()) = b := by
+  induction b generalizing i with
+  | nil => rfl
+  | cons kv r ih =>
+    cases i with
+    | zero => simp at hi; simp [hi]
+    | succ j => simp at hi; simp [ih j hi]
+
+/-- membership of (the class of) `k` -/
+def mem (C : Consistent hash eq) (t : Table K V) (k : K) : Bool := (lookB C t k).isSome
+
+/-- one step of `XSet::with_update` is one `try_put` step with unit values -/
+theorem sWithUpdate_cons (C : Consistent hash eq) (t : Table K Unit) (k : K) (rest : List (Res K)) :
+    sWithUpdate hash eq t (.ok k :: rest) =
+      match tryPut hash eq t k (fun _ => .ok ()) (fun _ => .ok ()) with
+      | .error e => .error e
+      | .ok t' => sWithUpdate hash eq t' rest := by
+  rw [tryPut_unfold C]
+  simp only [sWithUpdate]
+  rw [locate_eq C]
+  simp only [locP]
+  cases hg : bget t.buckets (C.h k) with
+  | none => simp [tryPutLocated, hg]
+  | some b =>
+    cases hs : scanP C.e k b with
+    | none => simp [hs, tryPutLocated, hg]
+    | some i =>
+      obtain ⟨k0, p, hi, _, _⟩ := scanP_some hs
+      simp [hs, tryPutLocated, hg, hi, set_unit_self b i k0 hi, binsert_self _ _ _ hg]
+
+theorem sWithUpdate_spec (C : Consistent hash eq) {t : Table K Unit} (hI : Inv C t) (ks : List K) :
+    ∃ t', sWithUpdate hash eq t (ks.map .ok) = .ok t' ∧ Inv C t' ∧
+      ∀ k', mem C t' k' = (mem C t k' || ks.any (fun k => C.e k' k)) := by
+  induction ks generalizing t with
+  | nil => exact ⟨t, rfl, hI, fun _ => by simp⟩
+  | cons k rest ih =>
+    obtain ⟨t1, h1, h2, _, h4⟩ := (tryPut_spec C hI k (fun _ => .ok ()) (fun _ => .ok ())).2 ()
+      (by cases lookB C t k <;> rfl)
+    obtain ⟨t', h5, h6, h7⟩ := ih h2
+    refine ⟨t', ?_, h6, ?_⟩
+    · rw [List.map_cons, sWithUpdate_cons C, h1]; exact h5
+    · intro k'
+      rw [h7]
+      simp only [mem, h4, List.any_cons]
+      cases C.e k' k <;> simp
+
+theorem sContains_eq (C : Consistent hash eq) (t : Table K Unit) (k : K) :
+    sContains hash eq t k = .ok (mem C t k) := by
+  unfold sContains mem
+  rw [locate_eq C]
+  have hiff := locP_found_iff C t k
+  cases hloc : locP C t k with
+  | found h i =>
+    have : (lookB C t k).isSome = true := hiff.1 ⟨h, i, hloc⟩
+    simp [this]
+  | missing h =>
+    have : (lookB C t k).isSome = false := by
+      cases hx : (lookB C t k).isSome
+      · rfl
+      · obtain ⟨_, _, h2⟩ := hiff.2 hx; rw [hloc] at h2; cases h2
+    simp [this]
+  | vacant h =>
+    have : (lookB C t k).isSome = false := by
+      cases hx : (lookB C t k).isSome
+      · rfl
+      · obtain ⟨_, _, h2⟩ := hiff.2 hx; rw [hloc] at h2; cases h2
+    simp [this]
+
+/-- membership depends on the class only -/
+theorem lookB_congr (C : Consistent hash eq) {t : Table K V} {a b : K} (h : C.e a b = true) :
+    lookB C t a = lookB C t b := by
+  simp only [lookB, C.congr a b h]
+  cases bget t.buckets (C.h b) with
+  | none => rfl
+  | some bk =>
+    simp only
+    induction bk with
+    | nil => rfl
+    | cons kv r ih => simp only [findE, e_left_congr' C h, ih]
+
+theorem mem_congr (C : Consistent hash eq) {t : Table K V} {a b : K} (h : C.e a b = true) :
+    mem C t a = mem C t b := by simp only [mem, lookB_congr C h]
+
+/-- a class is a member iff some stored key belongs to it -/
+theorem mem_iff_stored (C : Consistent hash eq) {t : Table K V} (hI : Inv C t) (k : K) :
+    mem C t k = (toList t).any (fun kv => C.e k kv.1) := by
+  unfold mem
+  rw [← look_eq_lookB C hI, look]
+  induction toList t with
+  | nil => rfl
+  | cons kv r ih =>
+    obtain ⟨k1, v1⟩ := kv
+    simp only [findE, List.any_cons]
+    cases C.e k k1 <;> simp [ih]
+
+theorem filterRes_ok (p : K → Bool) (l : List K) :
+    filterRes (fun i => .ok (p i)) l = (l.filter p).map (Except.ok (ε := Err)) := by
+  induction l with
+  | nil => rfl
+  | cons k r ih =>
+    simp only [filterRes, List.filter_cons]
+    cases p k <;> simp [ih]
+
+theorem allRes_ok (p : K → Bool) (l : List K) : allRes (fun i => .ok (p i)) l = .ok (l.all p) := by
+  induction l with
+  | nil => rfl
+  | cons k r ih =>
+    simp only [allRes, List.all_cons]
+    cases p k <;> simp [ih]
+
+theorem sToList_any (t : Table K Unit) (f : K → Bool) :
+    (sToList t).any f = (toList t).any (fun kv => f kv.1) := by
+  simp [sToList, List.any_map, Function.comp_def]
+
+/-- `a | b` -/
+theorem bitOr_spec (C : Consistent hash eq) {a b : Table K Unit} (ha : Inv C a) (hb : Inv C b) :
+    ∃ r, bitOr hash eq a b = .ok r ∧ Inv C r ∧ ∀ k, mem C r k = (mem C a k || mem C b k) := by
+  obtain ⟨r, h1, h2, h3⟩ := sWithUpdate_spec C ha (sToList b)
+  refine ⟨r, h1, h2, fun k => ?_⟩
+  rw [h3, mem_iff_stored C hb, sToList_any]
+
+/-- the shared shape of `&` and `-`: rebuild from the members of `x` that pass a class-respecting test -/
+theorem rebuild_spec (C : Consistent hash eq) {a x : Table K Unit} (ha : Inv C a) (hx : Inv C x)
+    (p : K → Bool) (hp : ∀ u v, C.e u v = true → p u = p v) :
+    ∃ r, sUpdate hash eq (clear a) (filterRes (fun i => .ok (p i)) (sToList x)) = .ok r ∧ Inv C r ∧
+      ∀ k, mem C r k = (mem C x k && p k) := by
+  obtain ⟨hc1, _, hc3⟩ := clear_spec C ha
+  rw [filterRes_ok]
+  obtain ⟨r, h1, h2, h3⟩ := sWithUpdate_spec C hc1 ((sToList x).filter p)
+  refine ⟨r, h1, h2, fun k => ?_⟩
+  rw [h3, mem_iff_stored C hx, ← sToList_any]
+  simp only [mem, hc3, Option.isSome_none, Bool.false_or]
+  induction sToList x with
+  | nil => rfl
+  | cons y ys ih =>
+    simp only [List.filter_cons, List.any_cons, Bool.or_and_distrib_right]
+    cases hy : p y
+    · cases hky : C.e k y
+      · simpa using ih
+      · have : p k = false := by rw [hp k y hky]; exact hy
+        simp only [Bool.false_eq_true, if_false, ih, this, Bool.and_false, Bool.or_false]
+    · cases hky : C.e k y
+      · simp only [if_true, List.any_cons, hky, Bool.false_or, ih, Bool.false_and]
+      · have : p k = true := by rw [hp k y hky]; exact hy
+        simp only [if_true, List.any_cons, hky, Bool.true_or, this, Bool.and_true]
+
+theorem sContains_fun (C : Consistent hash eq) (t : Table K Unit) :
+    (fun i => sContains hash eq t i) = fun i => .ok (mem C t i) := funext (sContains_eq C t)
+
+/-- `a & b` -/
+theorem bitAnd_spec (C : Consistent hash eq) {a b : Table K Unit} (ha : Inv C a) (hb : Inv C b) :
+    ∃ r, bitAnd hash eq a b = .ok r ∧ Inv C r ∧ ∀ k, mem C r k = (mem C a k && mem C b k) := by
+  unfold bitAnd orderByCard
+  split
+  · simp only [sContains_fun C]
+    obtain ⟨r, h1, h2, h3⟩ := rebuild_spec C ha ha (mem C b) (fun u v h => mem_congr C h)
+    exact ⟨r, h1, h2, h3⟩
+  · simp only [sContains_fun C]
+    obtain ⟨r, h1, h2, h3⟩ := rebuild_spec C ha hb (mem C a) (fun u v h => mem_congr C h)
+    exact ⟨r, h1, h2, fun k => by rw [h3, Bool.and_comm]⟩
+
+/-- `a - b` -/
+theorem sSub_spec (C : Consistent hash eq) {a b : Table K Unit} (ha : Inv C a) (hb : Inv C b) :
+    ∃ r, sSub hash eq a b = .ok r ∧ Inv C r ∧ ∀ k, mem C r k = (mem C a k && !mem C b k) := by
+  unfold sSub
+  simp only [sContains_eq C]
+  exact rebuild_spec C ha ha (fun i => !mem C b i) (fun u v h => by simp only [mem_congr C h])
+
+/-- `a ^ b` -/
+theorem bitXor_spec (C : Consistent hash eq) {a b : Table K Unit} (ha : Inv C a) (hb : Inv C b) :
+    ∃ r, bitXor hash eq a b = .ok r ∧ Inv C r ∧ ∀ k, mem C r k = (mem C a k != mem C b k) := by
+  obtain ⟨x, hx1, hx2, hx3⟩ := sSub_spec C ha hb
+  obtain ⟨y, hy1, hy2, hy3⟩ := sSub_spec C hb ha
+  obtain ⟨r, hr1, hr2, hr3⟩ := bitOr_spec C hx2 hy2
+  refine ⟨r, by simp [bitXor, hx1, hy1, hr1], hr2, fun k => ?_⟩
+  rw [hr3, hx3, hy3]
+  cases mem C a k <;> cases mem C b k <;> rfl
+
+
+/-! ### subset tests: counting classes -/
+
+theorem flat_mem_hash (C : Consistent hash eq) {bs : List (Nat × Bucket K V)} (hb : BucketsOK C bs) {y : K × V}
+    (hy : y ∈ bs.flatMap (·.2)) : ∃ b, bget bs (C.h y.1) = some b := by
+  induction bs with
+  | nil => simp at hy
+  | cons hb0 rest ih =>
+    obtain ⟨h0, b0⟩ := hb0
+    obtain ⟨h1, h2, h3⟩ := hb
+    simp only [List.flatMap_cons, List.mem_append] at hy
+    rcases hy with hy | hy
+    · exact ⟨b0, by simp [bget, h1.1 y hy]⟩
+    · obtain ⟨b, hbg⟩ := ih h3 hy
+      refine ⟨b, ?_⟩
+      have : h0 ≠ C.h y.1 := by intro he; rw [← he, h2] at hbg; cases hbg
+      simp [bget, this, hbg]
+
+/-- the stored keys are pairwise inequivalent: `len` counts classes -/
+theorem toList_pairwise (C : Consistent hash eq) {t : Table K V} (hI : Inv C t) :
+    (toList t).Pairwise (fun x y => C.e x.1 y.1 = false) := by
+  unfold toList
+  have hb := hI.buckets_ok
+  generalize t.buckets = bs at hb
+  induction bs with
+  | nil => simp
+  | cons hb0 rest ih =>
+    obtain ⟨h0, b0⟩ := hb0
+    obtain ⟨h1, h2, h3⟩ := hb
+    rw [List.flatMap_cons, List.pairwise_append]
+    refine ⟨h1.2.1, ih h3, ?_⟩
+    intro x hx y hy
+    obtain ⟨b, hbg⟩ := flat_mem_hash C h3 hy
+    apply e_false_of_hash_ne C
+    rw [h1.1 x hx]
+    intro he; rw [he, hbg] at h2; cases h2
+
+theorem filter_length_lt {α : Type} (p : α → Bool) (l : List α) {y : α} (hy : y ∈ l) (hp : p y = false) :
+    (l.filter p).length < l.length := by
+  induction l with
+  | nil => simp at hy
+  | cons z r ih =>
+    simp only [List.filter_cons]
+    rcases List.mem_cons.1 hy with rfl | hm
+    · simp only [hp, Bool.false_eq_true, if_false, List.length_cons]
+      have := List.length_filter_le p r; omega
+    · have := ih hm
+      split
+      · simp only [List.length_cons]; omega
+      · simp only [List.length_cons]; omega
+
+/-- counting: pairwise inequivalent keys that all have an equivalent partner in `lb` are at most `|lb|` -/
+theorem card_le (C : Consistent hash eq) (la lb : List K) (hp : la.Pairwise (fun x y => C.e x y = false))
+    (hm : ∀ x ∈ la, ∃ y ∈ lb, C.e x y = true) : la.length ≤ lb.length := by
+  induction la generalizing lb with
+  | nil => simp
+  | cons x r ih =>
+    rw [List.pairwise_cons] at hp
+    obtain ⟨y, hy, hxy⟩ := hm x (by simp)
+    have hlt := filter_length_lt (fun z => !C.e x z) lb hy (by simp [hxy])
+    have := ih (lb.filter (fun z => !C.e x z)) hp.2 (by
+      intro x' hx'
+      obtain ⟨y', hy', hxy'⟩ := hm x' (by simp [hx'])
+      refine ⟨y', ?_, hxy'⟩
+      rw [List.mem_filter]
+      refine ⟨hy', ?_⟩
+      have h1 := hp.1 x' hx'
+      cases h2 : C.e x y'
+      · rfl
+      · have := C.trans x y' x' h2 (C.symm _ _ hxy'); simp [this] at h1)
+    simp only [List.length_cons]; omega
+
+/-- inclusion of the class sets -/
+def Sub (C : Consistent hash eq) (a b : Table K V) : Prop := ∀ k, mem C a k = true → mem C b k = true
+
+theorem skeys_pairwise (C : Consistent hash eq) {t : Table K Unit} (hI : Inv C t) :
+    (sToList t).Pairwise (fun x y => C.e x y = false) :=
+  List.pairwise_map.2 (toList_pairwise C hI)
+
+theorem skeys_length (C : Consistent hash eq) {t : Table K Unit} (hI : Inv C t) : (sToList t).length = t.len := by
+  simp [sToList, toList_length, hI.len_eq]
+
+theorem mem_iff_skeys (C : Consistent hash eq) {t : Table K Unit} (hI : Inv C t) (k : K) :
+    mem C t k = true ↔ ∃ x ∈ sToList t, C.e k x = true := by
+  rw [mem_iff_stored C hI, ← sToList_any]; simp
+
+theorem mem_of_stored (C : Consistent hash eq) {t : Table K Unit} (hI : Inv C t) {x : K} (hx : x ∈ sToList t) :
+    mem C t x = true := (mem_iff_skeys C hI x).2 ⟨x, hx, C.refl x⟩
+
+theorem all_mem_iff_sub (C : Consistent hash eq) {a b : Table K Unit} (ha : Inv C a) :
+    (sToList a).all (mem C b) = true ↔ Sub C a b := by
+  rw [List.all_eq_true]
+  constructor
+  · intro h k hk
+    obtain ⟨x, hx, hkx⟩ := (mem_iff_skeys C ha k).1 hk
+    rw [mem_congr C hkx]; exact h x hx
+  · intro h x hx
+    exact h x (mem_of_stored C ha hx)
+
+theorem sub_len_le (C : Consistent hash eq) {a b : Table K Unit} (ha : Inv C a) (hb : Inv C b) (h : Sub C a b) :
+    a.len ≤ b.len := by
+  rw [← skeys_length C ha, ← skeys_length C hb]
+  apply card_le C _ _ (skeys_pairwise C ha)
+  intro x hx
+  exact (mem_iff_skeys C hb x).1 (h x (mem_of_stored C ha hx))
+
+/-- pigeonhole: a subset with at least as many classes is the whole set -/
+theorem sub_antisymm_of_len (C : Consistent hash eq) {a b : Table K Unit} (ha : Inv C a) (hb : Inv C b)
+    (h : Sub C a b) (hl : b.len ≤ a.len) : Sub C b a := by
+  intro k hk
+  cases hak : mem C a k
+  · -- all members of `a` avoid the class of `k`, which `b` contains: one class of `b` is left over
+    exfalso
+    obtain ⟨z, hz, hkz⟩ := (mem_iff_skeys C hb k).1 hk
+    have hlt := filter_length_lt (fun y => !C.e k y) (sToList b) hz (by simp [hkz])
+    have hle := card_le C (sToList a) ((sToList b).filter (fun y => !C.e k y)) (skeys_pairwise C ha) (by
+      intro x hx
+      obtain ⟨y, hy, hxy⟩ := (mem_iff_skeys C hb x).1 (h x (mem_of_stored C ha hx))
+      refine ⟨y, ?_, hxy⟩
+      rw [List.mem_filter]
+      refine ⟨hy, ?_⟩
+      cases hky : C.e k y
+      · rfl
+      · have hkx : C.e k x = true := C.trans k y x hky (C.symm _ _ hxy)
+        have := mem_of_stored C ha hx
+        rw [← mem_congr C hkx, hak] at this; cases this)
+    rw [skeys_length C ha] at hle
+    rw [skeys_length C hb] at hlt
+    omega
+  · rfl
+
+theorem sGe_spec (C : Consistent hash eq) {a b : Table K Unit} (ha : Inv C a) (hb : Inv C b) :
+    ∃ r, sGe hash eq b a = .ok r ∧ (r = true ↔ Sub C a b) := by
+  unfold sGe
+  simp only [sContains_eq C, allRes_ok]
+  split
+  · exact ⟨_, rfl, all_mem_iff_sub C ha⟩
+  · rename_i hl
+    exact ⟨false, rfl, by simp; intro h; exact hl (sub_len_le C ha hb h)⟩
+
+theorem sGt_spec (C : Consistent hash eq) {a b : Table K Unit} (ha : Inv C a) (hb : Inv C b) :
+    ∃ r, sGt hash eq b a = .ok r ∧ (r = true ↔ (Sub C a b ∧ ¬ Sub C b a)) := by
+  unfold sGt
+  simp only [sContains_eq C, allRes_ok]
+  split
+  · rename_i hl
+    refine ⟨_, rfl, ?_⟩
+    rw [all_mem_iff_sub C ha]
+    constructor
+    · intro h
+      refine ⟨h, fun h2 => ?_⟩
+      have := sub_len_le C hb ha h2; omega
+    · exact fun h => h.1
+  · rename_i hl
+    refine ⟨false, rfl, ?_⟩
+    simp only [Bool.false_eq_true, false_iff, not_and, Classical.not_not]
+    intro h
+    exact sub_antisymm_of_len C ha hb h (by have := sub_len_le C ha hb h; omega)
+
+theorem sEq_spec (C : Consistent hash eq) {a b : Table K Unit} (ha : Inv C a) (hb : Inv C b) :
+    ∃ r, sEq hash eq a b = .ok r ∧ (r = true ↔ ∀ k, mem C a k = mem C b k) := by
+  have key : (∀ k, mem C a k = mem C b k) ↔ (Sub C a b ∧ Sub C b a) := by
+    constructor
+    · intro h; exact ⟨fun k hk => by rw [← h k]; exact hk, fun k hk => by rw [h k]; exact hk⟩
+    · intro ⟨h1, h2⟩ k
+      cases hak : mem C a k
+      · cases hbk : mem C b k
+        · rfl
+        · have := h2 k hbk; rw [hak] at this; cases this
+      · exact (h1 k hak).symm
+  unfold sEq orderByCard
+  simp only [sContains_eq C, allRes_ok]
+  by_cases hl : a.len = b.len
+  · have hnl : ¬ a.len < b.len := by omega
+    simp only [if_pos hl, if_neg hnl]
+    refine ⟨_, rfl, ?_⟩
+    rw [all_mem_iff_sub C hb, key]
+    constructor
+    · intro h; exact ⟨sub_antisymm_of_len C hb ha h (by omega), h⟩
+    · exact fun h => h.2
+  · simp only [if_neg hl]
+    refine ⟨false, rfl, ?_⟩
+    simp only [Bool.false_eq_true, false_iff, key, not_and]
+    intro h1 h2
+    have := sub_len_le C ha hb h1; have := sub_len_le C hb ha h2; omega
+
+theorem isDisjoint_spec (C : Consistent hash eq) {a b : Table K Unit} (ha : Inv C a) (hb : Inv C b) :
+    ∃ r, isDisjoint hash eq a b = .ok r ∧ (r = true ↔ ∀ k, ¬ (mem C a k = true ∧ mem C b k = true)) := by
+  have key : ∀ {x y : Table K Unit}, Inv C x →
+      ((sToList x).all (fun i => !mem C y i) = true ↔ ∀ k, ¬ (mem C x k = true ∧ mem C y k = true)) := by
+    intro x y hx
+    rw [List.all_eq_true]
+    constructor
+    · intro h k ⟨h1, h2⟩
+      obtain ⟨z, hz, hkz⟩ := (mem_iff_skeys C hx k).1 h1
+      have := h z hz
+      rw [← mem_congr C hkz, h2] at this; cases this
+    · intro h z hz
+      cases hy : mem C y z
+      · rfl
+      · exact absurd ⟨mem_of_stored C hx hz, hy⟩ (h z)
+  unfold isDisjoint orderByCard
+  simp only [sContains_eq C, allRes_ok]
+  split
+  · exact ⟨_, rfl, key ha⟩
+  · refine ⟨_, rfl, ?_⟩
+    rw [key hb]
+    exact ⟨fun h k hk => h k ⟨hk.2, hk.1⟩, fun h k hk => h k ⟨hk.2, hk.1⟩⟩
+
+
+/-! ### hash-free membership (for the statements in Props/C17.lean) -/
+
+/-- membership of the class of `k`, read off the plain association list (no hashing) -/
+def has (C : Consistent hash eq) (t : Table K V) (k : K) : Bool := (look C t k).isSome
+
+theorem has_eq_mem (C : Consistent hash eq) {t : Table K V} (hI : Inv C t) (k : K) : has C t k = mem C t k := by
+  simp only [has, mem, look_eq_lookB C hI]
+
+theorem look_fun (C : Consistent hash eq) {t : Table K V} (hI : Inv C t) : look C t = lookB C t :=
+  funext (look_eq_lookB C hI)
 
 end
 end XrayModel.HM
